@@ -1473,6 +1473,9 @@ def compile_pattern(compiler, pattern):
         )
     elif isinstance(value, Expression):
         head, args, kwargs = value
+        if str(head[1][0] if type(head) is Expression else head) in (
+                "None", "True", "False", "..."):
+            compiler._syntax_error(head, "the class of a class pattern must be a name or a dotted name")
         keywords, values = zip(*kwargs) if kwargs else ([], [])
         return asty.MatchClass(
             value,
